@@ -21,10 +21,10 @@ CLAIMS = {
                 note="Outside: prefix-sum vectors longer than 5, prefix values >= 2^10 in the quick tier, Range.h/FileGraph/OfflineGraph divideBy* wrappers and DistributedGraph block division (not yet encoded)."),
     "C14": dict(tech=TECH, ref="DESIGN.md section 3 C14",
                 text="Each container is driven through operation sequences whose KINDS are enumerated as separate solver queries while element values and insertion positions are solver variables; after every operation the container is compared "
-                     "(size, front/back, full forward and reverse traversal, results) with an array model kept by the harness; a Counted element type with a ghost live-instance map decides 'constructed and destroyed exactly once'.",
+                     "(size, front/back, full forward and reverse traversal, results) with an array model kept by the harness; a Counted element type with a ghost live-instance map decides 'constructed and destroyed exactly once'; InsertBag<T,96> for element sizes 4/8/24/40 bytes and up to 6 insertions from two threads (every element enumerated once, intact, nothing written outside a block).",
                 note="Bounds per container in the evidence (gdeque<T,2>: 3-element two-block prefix + all pairs of 11 operation kinds in the quick tier; all triples in the thorough tier). GALOIS_FORCE_STANDALONE routes the block allocator to malloc (the Galois heaps are C09)."),
     "C09": dict(tech=TECH, ref="DESIGN.md section 3 C09 and section 7",
-                text="one-step contracts from an arbitrary valid pre-state (representation invariant assumed, checked to hold initially) for BumpHeap (both allocate overloads), BumpWithMallocHeap (+clear), BlockHeap, FreeListHeap/SelfLockFreeListHeap (alloc/free histories), AddHeader, Pow_2 size classes (all sizes <= 65536) and the real PerBackend::allocOffset/deallocOffset (every 3-operation history + split-path histories): results non-null, aligned, inside the block, large enough, disjoint from everything live.",
+                text="one-step contracts from an arbitrary valid pre-state (representation invariant assumed, checked to hold initially) for BumpHeap (both allocate overloads), BumpWithMallocHeap (+clear), BlockHeap, FreeListHeap/SelfLockFreeListHeap (alloc/free histories), AddHeader, Pow_2 size classes (all sizes <= 65536; the block of class k is usable for the whole class size) and the real PerBackend::allocOffset/deallocOffset (every 3-operation history + split-path histories): results non-null, aligned, inside the block, large enough, disjoint from everything live.",
                 note="Source heap scaled to AllocSize=128 bytes (the 2 MB page is only a capacity); PerThreadStorage over 1024 bytes; page pool, NUMA placement, OwnerTaggedHeap (does not compile), SizedHeapFactory map lookup and all multi-thread histories are outside."),
     "C12": dict(tech=TECH, ref="DESIGN.md section 3 C12 and section 7",
                 text="binary format only: symbolic graphs (nodes 0..3, edges 0..3, edge data 0/4/8 bytes, versions 1 and 2, odd and even edge counts) built by the real FileGraph::fromArrays / FileGraphWriter, written through the real toFile/write path into an in-memory file model, re-read by FileGraph::fromFile/fromMem and enumerated: same nodes, edges, data; every section stays inside the block sized by rawBlockSize (CBMC bounds checks); sub-range views; Endian.h.",
@@ -60,7 +60,7 @@ CLAIMS = {
                 text="sequential step contracts of the stealing do_all ThreadContext (getWork / stealWork HALF and FULL / assignWork / transferWork from an arbitrary consistent pre-state, chunk size symbolic 1..4096, counting and pointer iterators): returned piece and remainder are disjoint and cover the old range; the real ThreadPool::cascade() wake-up tree for every num<=16 wakes each thread 1..num-1 exactly once with wbegin<=wend; the two halves of a parallel region as step machines under a solver-chosen schedule (fork: master writes, cascade(); worker wait() in fast mode and in the mutex/condition-variable mode; join: decascade() of the master and of 1-2 workers): a woken thread sees its mailbox range, the master leaves decascade() only after every thread it woke has finished, no deadlock.",
                 note="The per-thread pieces of Range.h are C13. The interleaved stealing executor, a whole region in one obligation (out of memory, tier=attic), runDedicated and on_each over the real pool are outside."),
     "C05": dict(tech=TECH_CONC, ref="DESIGN.md section 3 C05 and section 7",
-                text="the real wait() bodies of CountingBarrier, MCSBarrier, DisseminationBarrier, TopoBarrier (over the real per-thread/per-socket storage, topologies {0,0} and {0,1}; T=3 with 5 topologies in the thorough tier) and SimpleBarrier (mutex/condition-variable contract models, one phase) (state built by the real constructors/reinit) run as step machines under a solver-chosen schedule: no thread returns from its k-th wait before every participant entered it, every thread returns (deadlock probe + step-bound assertion), reuse over 2-3 phases, reinit to a different participant count between regions, T=1.",
+                text="the real wait() bodies of CountingBarrier, MCSBarrier, DisseminationBarrier, TopoBarrier (over the real per-thread/per-socket storage, topologies {0,0} and {0,1}; T=3 with 5 topologies in the thorough tier) and SimpleBarrier (mutex/condition-variable contract models, one phase) (state built by the real constructors/reinit) run as step machines under a solver-chosen schedule: no thread returns from its k-th wait before every participant entered it, every thread returns (deadlock probe + step-bound assertion), reuse over 2-3 phases, reinit to a different participant count between regions, T=1; the bookkeeping of internal::BarrierInstance::get (the object behind getBarrier) over four symbolic requests: the barrier handed out is initialised for exactly min(n, usable threads).",
                 note="T=2 in the quick tier, T=3 and the plain-accesses-visible variant in the thorough tier; SC values only. PthreadBarrier (a libc object) is not encoded."),
     "C06": dict(tech=TECH_CONC, ref="DESIGN.md section 3 C06 and section 7",
                 text="SimpleLock lock()/try_lock()/unlock() under all schedules of T=2 (T=3 thorough) x 2 acquisitions: at most one holder, every requester admitted, no deadlock; the release->acquire edge is a happens-before edge for a plain payload under ghost vector clocks that honour the memory orders found in the IR (weakening unlock() to relaxed is reported); an asymmetric 1+3 acquisition run (a slow-path waiter that loses a compare-exchange meets a re-acquired lock); entry to and return from a parallel region (fastRelease / done flags, unit C06_forkjoin = C03_join): data written by the master before the region is visible to the woken thread, data written by a worker in the region is visible to the master after decascade(), under the memory orders in the code.",
